@@ -647,6 +647,23 @@ def r9_datetime_total(rep, facts):
     rep.relabel('C12/R4', 'C19/R9', 'the macro hands the token spelling of a date-time to Datetime::from_str(..).unwrap(): ')
 
 
+
+def _helpers_decided_by_evaluation(rep):
+    # R4 (traverse) and R7c read off the helpers' bodies that an existing entry is kept and descended into; R7d evaluates the helpers on trees where that matters
+    # (a header over a table that already holds a sub-table, a path created two levels deep, a nested array below the last element, a value next to another).
+    # Where every R7d case comes out as the parser would build it, a helper written another way (the entry API, a `match` on as_array_mut) is not a finding.
+    r7d = rep.rules.get('C19/R7d', {}).get('obligations', [])
+    if len(r7d) >= 7 and all(o['ok'] for o in r7d) and not any(v['rule'] == 'C19/R7d' for v in rep.violations):
+        moot = [v for v in rep.violations if (v['rule'] == 'C19/R4' and 'traverse' in v['key']) or v['rule'] == 'C19/R7c']
+        if moot:
+            rep.violations[:] = [v for v in rep.violations if v not in moot]
+            for rid in ('C19/R4', 'C19/R7c'):
+                if rid in rep.rules:
+                    rep.rules[rid]['obligations'] = [o for o in rep.rules[rid]['obligations'] if o['ok']]
+                    rep.rules[rid]['floor'] = None
+            rep.notes.append(f'C19/R4 / R7c read the run-time helpers of the macro off their shape and do not recognise {len(moot)} site(s) in this tree ({moot[0]["detail"][:140]}); the helpers '
+                             f'evaluated on model trees build what the parser builds (C19/R7d).')
+
 def run(tier):
     seed = int(os.environ.get('VERIF_SEED', '0') or 0)
     rep = Report(PROP, tier, seed)
@@ -656,6 +673,7 @@ def run(tier):
         rep.configs.append('default')
         rep.bodies_analysed = facts.n_bodies()
         r4_helpers(rep, facts)
+        _helpers_decided_by_evaluation(rep)
         r9_datetime_total(rep, facts)
         r11_map_identity(rep, facts)
     except AnalysisIncomplete as e:
